@@ -322,10 +322,10 @@ def random_small(rng, name, max_product=150):
         flavor = 'first' if rng.chance(3, 5) else 'member'
         methods = 2 if (flavor == 'first' and rng.chance(1, 3)) else 1
         nl = rng.range(1, 4 if flavor == 'member' else 3) if not rng.chance(1, 6) else (4 if flavor == 'member' else 3)
-        pool = rng.range(2, 9)
+        pool = rng.range(3, 10)
         lists = []
         for _ in range(nl):
-            ln = min(rng.range(1, 6), pool)
+            ln = min(rng.choice([1, 2, 2, 3, 3, 4, 4, 5, 6]), pool)
             lists.append(rng.sample(range(pool), ln))
         size = methods
         for l in lists:
@@ -338,7 +338,7 @@ def random_small(rng, name, max_product=150):
     lists = [[ren[x] for x in l] for l in lists]
     sc = {'name': name, 'flavor': flavor, 'methods': methods, 'lists': lists}
     prod = list(itertools.product(*full_lists(sc)))
-    kind = rng.choice(['none', 'all', 'one', 'allbutone', 'ends', (1, 2), (1, 4), (3, 4), (1, 2), (1, 8)])
+    kind = rng.choice(['none', 'all', 'one', 'allbutone', 'ends', 'first', 'last', (1, 2), (1, 4), (3, 4), (1, 2), (1, 8), (1, 3), (2, 3)])
     sc['undef'] = pick_undef(rng, prod, kind)
     sc['style'] = 'default_undefined' if rng.chance(1, 3) else 'default_defined'
     sc['indirect'] = rng.chance(1, 3)
